@@ -46,7 +46,16 @@ StdTc(d) == [n \in {"null", "boolean", "integer", "number", "string", "array", "
 TypeNamesProbed == {"integer", "string", "newtype", "any"}
 TcBeh(tc) == [n \in TypeNamesProbed |-> IF n \in DOMAIN tc THEN [x \in ProbeInsts |-> Pred(tc[n], x)] ELSE "undefined"]
 \* a class / validator object: its type behaviour plus keyword features and the id keyword it honours
-ClassBeh(c, tc) == [types |-> TcBeh(tc), kw |-> c.kw, idkw |-> c.idkw]
+\* check_schema is the class applied to its own metaschema: the class's own type checker and keyword functions decide.
+\*   {"title": 1}       is accepted exactly when the class's "string" accepts 1 ("undefined": the check raises UnknownType)
+\*   {"minLength": -1}  is accepted exactly when the class's "integer" accepts -1 and its `minimum` has been overridden
+\*                      by the never-failing one ("skip": no "integer" at all -- which of the two complaints comes
+\*                      first depends on the member order of the metaschema, not claimed)
+CheckSchemaBeh(c, tc) ==
+  [title  |-> IF "string" \notin DOMAIN tc THEN "undefined" ELSE IF Pred(tc["string"], "one") THEN "accept" ELSE "reject",
+   minlen |-> IF "integer" \notin DOMAIN tc THEN "skip"
+              ELSE IF Pred(tc["integer"], "one") /\ "override-minimum" \in c.kw THEN "accept" ELSE "reject"]
+ClassBeh(c, tc) == [types |-> TcBeh(tc), kw |-> c.kw, idkw |-> c.idkw, cs |-> CheckSchemaBeh(c, tc)]
 FcBeh(f) == f                                     \* format name -> function id (unknown names pass)
 
 Beh == [tc |-> [t \in DOMAIN tcs |-> TcBeh(tcs[t])],
